@@ -180,7 +180,7 @@ impl<const N: usize> AEADCipherCodec<N> {
         }
         let eih_len = if require_eih { 16 } else { 0 };
         let header_len = eih_len + 1 + 8 + request_salt_len + 2 + tag_size;
-        if src.remaining() < header_len {
+        if src.remaining() < N + header_len {
             bail!("header too short, expecting {} bytes, but found {} bytes", header_len + N, src.remaining());
         }
         let mut salt = [0; N];
@@ -230,8 +230,14 @@ impl<const N: usize> AEADCipherCodec<N> {
             self.decoder = Some(decoder);
             if matches!(session.mode, Mode::Server) && session.address.is_none() {
                 session.address = Some(address::decode(&mut via)?);
-                let padding_len = via.get_u16();
-                via.advance(padding_len as usize);
+                if via.remaining() < 2 {
+                    bail!("missing padding length");
+                }
+                let padding_len = via.get_u16() as usize;
+                if via.remaining() < padding_len {
+                    bail!("padding length {} exceeds the header", padding_len);
+                }
+                via.advance(padding_len);
             }
             return Ok(Some(via));
         }
